@@ -166,6 +166,9 @@ func c14One(binds []c14Binding, limit int) (*core.Viol, bool) {
 			}
 			ra := implEval(a, b.name, 1000)
 			rx := implEval(x, b.name, 1000)
+			if b.val != nil && !ra.isErr && ra.val != ref.Dump(*b.val) {
+				return nil, false // the definition itself does not yield the intended value (not this property's business)
+			}
 			if rx.isErr || ra.val != rx.val {
 				class := how + ":value-differs"
 				if b.val != nil && !rx.isErr && rx.val == ref.Dump(c14Degrade(*b.val)) {
@@ -191,6 +194,12 @@ func c14Data() []c14Binding {
 		n++
 		vv := v
 		out = append(out, c14Binding{name: fmt.Sprintf("d%d", n), def: fmt.Sprintf("d%d = %s", n, ref.Source(v)), val: &vv})
+		// strings are also defined with their raw bytes between the quotes, so that the value in memory does not depend on
+		// how the lexer decodes the escapes that the save format will use
+		if v.Kind == ref.KString && v.S != "" && !strings.ContainsAny(v.S, "\"\\\n\r\x00") {
+			n++
+			out = append(out, c14Binding{name: fmt.Sprintf("d%d", n), def: fmt.Sprintf("d%d = \"%s\"", n, v.S), val: &vv})
+		}
 	}
 	for _, i := range []int64{0, 1, -1, math.MaxInt64, math.MinInt64, 1 << 53} {
 		add(ref.Int(i))
